@@ -9,8 +9,8 @@
      - the general renumbering lemma (expression arenas of all functions + function arena),
      - CompactExpressions: behaviour preserved, result well-formed, idempotent,
      - CompactUnused: behaviour preserved when only functions are removed (_partial:
-       assumes the computed live set is call-closed - evaluated by the check on every
-       module - and that no global is removed; removing a global renumbers memory cells).
+       assumes that no global is removed - evaluated by the check on every module;
+       removing a global renumbers memory cells).
    Direction: refinement (a run of the source that terminates with a result is reproduced
    with the same result and the same fuel); a dead expression that fails in the source
    (e.g. an out-of-bounds Load under an Emit) is not evaluated after the pass.
@@ -63,16 +63,21 @@ Theorem c13_module_wfb_sound : forall m, module_wfb m = true -> module_wf m.
 Proof. exact module_wfb_sound. Qed.
 Print Assumptions c13_module_wfb_sound.
 
-(* missing for the full statement: (a) [reach] computes a call-closed set (fuel
-   sufficiency of the work-list), (b) removal of globals (cell renumbering). *)
+(* [reach] (the work-list computation of the live functions) is call-closed *)
+Theorem c13_used_functions_closed :
+  forall m, calls_in_rangeb m = true -> calls_closedb m (used_functions m) = true.
+Proof. exact used_functions_closed. Qed.
+Print Assumptions c13_used_functions_closed.
+
+(* missing for the full statement: removal of globals (renumbering of memory cells needs a
+   simulation up to a cell renaming instead of equality of values) *)
 Theorem c13_compact_unused_sound_partial :
-  forall m, module_wf m ->
-  calls_closedb m (used_functions m) = true ->
+  forall m, module_wf m -> calls_in_rangeb m = true ->
   all_true (used_globals m (used_functions m)) = true ->
   forall fuel ep gs args res,
     run_entry fuel m ep gs args = Done res ->
     run_entry fuel (compact_unused m) ep gs args = Done res.
-Proof. exact compact_unused_sound_partial. Qed.
+Proof. exact compact_unused_functions_sound. Qed.
 Print Assumptions c13_compact_unused_sound_partial.
 
 (* ---- non-vacuity: a module with a dead expression and an unreachable function ---- *)
@@ -103,7 +108,7 @@ Example ex_compact_expressions_changes :
 Proof. vm_compute. split; reflexivity. Qed.
 
 Example ex_compact_unused_changes :
-  calls_closedb ex_module (used_functions ex_module) = true
+  calls_in_rangeb ex_module = true
   /\ all_true (used_globals ex_module (used_functions ex_module)) = true
   /\ map f_name (m_functions (compact_unused ex_module)) = ["live"]
   /\ run_entry 20 (compact_unused ex_module) 0 [None] [] = Done ([VU32 30], None).
